@@ -114,6 +114,23 @@ def unsplice (g : Graph) : Graph :=
     (g.preds b).flatMap (fun x => (g.succs b).map (fun m => (⟨x, m, .move⟩ : Edge))))
   ⟨keep.map g.kind, (direct ++ through).map (fun e => ⟨idx e.src, idx e.dst, e.kind⟩)⟩
 
+/-- drop what dependency injection adds for the observers' own inputs (the splice only creates the observer
+    nodes, their borrow of the `pavex::Error` and the happens-before chain): the other arguments of the
+    observers and the nodes that only exist to build them. -/
+def pruneObsInputs (g : Graph) : Graph :=
+  let es0 := g.edges.filter (fun e => !(isObserver (g.kind e.dst) && e.kind != .before && g.kind e.src != .errorNew))
+  let feeder := fun n => match g.kind n with
+    | .ctor _ | .input | .other => true
+    | _ => false
+  let rec go : Nat → List Nat → List Edge → List Nat × List Edge
+    | 0, dead, es => (dead, es)
+    | fuel + 1, dead, es =>
+      let more := (List.range g.size).filter (fun n => feeder n && !dead.contains n && !es.any (fun e => e.src == n))
+      if more.isEmpty then (dead, es) else go fuel (dead ++ more) (es.filter (fun e => !more.contains e.dst))
+  let (dead, es) := go g.size [] es0
+  let keep := (List.range g.size).filter (fun n => !dead.contains n)
+  ⟨keep.map g.kind, es.map (fun e => ⟨keep.idxOf e.src, keep.idxOf e.dst, e.kind⟩)⟩
+
 /-- a numbering-independent description of a graph -/
 def canon (g : Graph) : List String :=
   let es := g.edges.map (fun e => s!"{kindStr (g.kind e.src)}>{kindStr (g.kind e.dst)}:{ekStr e.kind}")
@@ -163,10 +180,11 @@ def handle (j : Json) : Json :=
           let want := (choiceOf (g.kind x)).kind
           Json.mkObj [("scrutinee", jstr (kindStr (g.kind x))), ("handler", jstr (kindStr want)),
             ("shape", Json.bool (armShape g b want obs))])
-        let re := injectBranching (spliceAll obs (unsplice g))
+        let gp := pruneObsInputs g
+        let re := injectBranching (spliceAll obs (unsplice gp))
         Json.mkObj [("root", jstr (((findRoot g).map (fun r => kindStr (g.kind r))).getD "?")),
           ("ordered", Json.bool g.ordered), ("arms", Json.arr arms.toArray),
-          ("resplice", Json.bool (canon re == canon g)),
+          ("resplice", Json.bool (canon re == canon gp)),
           ("invariant", Json.bool (invariantHolds g obs.length && invariantHolds re obs.length))])
       Json.mkObj [("route", jnat h), ("known", Json.bool info.isSome),
         ("chain", Json.arr (((info.map (·.chain)).getD []).map (fun m => jstr (s!"m{m.id}"))).toArray),
